@@ -80,10 +80,13 @@ def run(tier):
         # per-pair skin: hunk positions (small / beyond 10^4: gutter width) and, where rows are not parsed,
         # file names whose language is decided by the whole name or by the extension
         r3 = random.Random(core.seed() * 131 + __import__("zlib").crc32(json.dumps(parts).encode()) % 100003)
-        skin = {"start": r3.choice([10, 10, 9990, 123456])}
-        if not rs and r3.random() < 0.6:
-            skin["names"] = r3.choice(NAMES[1:])
+        names = r3.choice(NAMES[1:]) if (not rs and r3.random() < 0.6) else None
         for h in parts:
+            # each section has its own hunk positions: a neighbour with six-digit line numbers must not
+            # change how this one is laid out
+            skin = {"start": r3.choice([10, 10, 9990, 123456])}
+            if names:
+                skin["names"] = names
             data, texts = gitskin.concretise(h, k0=k0, skin=skin)
             k0 += len(h)
             datas.append(data)
